@@ -17,7 +17,12 @@ LEVEL_TEXT = ("Proof over the reals: delta1 = 1 - sum_{j<n} pmf(j) = sum_{j>=n} 
               "count n (n = 0 included) and every 0 < eps < 1, hence delta1 + delta2 = 1 + pmf(n), both in [0,1]; for the Poisson "
               "law the lower tail has derivative -pmf(n) in the mean, so delta1 is non-decreasing and delta2 non-increasing in "
               "the mean; the NBD parameters are p = mean/var, r = mean^2/(var-mean) and give back mean and variance; the catalog "
-              "N-test is C09's counting probabilities of the catalogue sizes. Tied to the code by a numerical correspondence of "
+              "N-test is C09's counting probabilities of the catalogue sizes. Public functions: epsilon is the code's 1e-6; in "
+              "float64 n - 1e-6 and n + 1e-6 floor to n - 1 and n for every count below 2^33 (Soft64, by monotonicity of "
+              "rounding; false at 2^35); the mean is (sum of stored rates) x (LAST scale factor) after any history of scale "
+              "calls; delta1/delta2 are monotone in that factor and in the number of rows of the observed catalog; the laws "
+              "have the stated moments (series E N = mean, E (N-mean)^2 = variance for the code's NBD parameters, which are "
+              "admissible exactly when variance > mean). Tied to the code by a numerical correspondence of "
               "the Float instance with the implementation and a scipy oracle on every run.")
 LEVEL_NOTE = ("Theorems are over the reals; scipy's poisson.cdf / nbinom.cdf are taken to be the finite sums of the mass function "
               "(compared numerically each run: 1e-9 relative for n <= 2000, 1e-7 for larger n where the Float log-factorial "
@@ -35,12 +40,23 @@ THEOREMS = ["NumberTest.floor_shift", "NumberTest.cdf_shift", "NumberTest.pmf_cl
             "NumberTest.nbd_params", "NumberTest.nbd_mean", "NumberTest.nbd_var", "NumberTest.nbd_params_admissible",
             "NumberTest.nbd_delta_eq", "NumberTest.nbd_delta_sum", "NumberTest.nbd_pmf_total",
             "NumberTest.nbd_delta1_eq_upper_tail", "NumberTest.nbd_delta_bounds", "NumberTest.nbd_stable_eq",
-            "NumberTest.catalog_ntest_eq", "NumberTest.catalog_ntest_sum"]
+            "NumberTest.catalog_ntest_eq", "NumberTest.catalog_ntest_sum",
+            # Properties/C07_Public.lean: public wrappers, float64 floor arguments, moments of the laws
+            "NumberTest.eps_code_admissible", "NumberTest.float_floor_shift", "NumberTest.float_floor_shift_fails_beyond",
+            "NumberTest.forecast_total_after_scaling", "NumberTest.public_number_test_tails",
+            "NumberTest.public_number_test_sum_bounds", "NumberTest.public_rates_perm", "NumberTest.public_scale_mono",
+            "NumberTest.delta_mono_count_le", "NumberTest.public_more_events", "NumberTest.pois_law_mean",
+            "NumberTest.nbd_law_mean", "NumberTest.nbd_law_var", "NumberTest.nbd_params_admissible_iff",
+            "NumberTest.nbd_delta1_succ_eq_one_sub_delta2", "NumberTest.nbd_delta_mono_count_le",
+            "NumberTest.public_nbd_test_tails", "NumberTest.catalog_public_eq", "NumberTest.catalog_public_perm",
+            "NumberTest.catalog_ntest_mono_count"]
 TRUSTED = ["Lean 4.33 kernel", "axioms: propext, Classical.choice, Quot.sound at most",
            "scipy.stats.poisson.cdf(x, mu) / nbinom.cdf(x, r, p) compute the finite sums of the mass function up to floor(x) "
            "(0 for x < 0); compared numerically with the Float instance of the model on every run, not proved",
            "rounding of exp/log/cdf in float64 is outside every theorem (Float instance vs real instance)",
-           "numpy.sum of the forecast rates is the forecast total (compared with math.fsum to 1e-12 relative)",
+           "numpy.sum of the forecast rates is the forecast total (compared with math.fsum to 1e-12 relative, and with the "
+           "model's own sequential sum of stored rate x factor in the public-history cases)",
+           "Soft64 = IEEE binary64 for n -/+ 1e-6 (compared with numpy on every run, also beyond the proved range)",
            "C09 (get_quantiles) for the catalog N-test",
            "harness/c07.py generators and comparison; driver parsing (Proto.lean)"]
 RULE = ("mu in 10^U(-6,5) plus decimal/integer boundary means; n in {0,1,2, floor(mu)+-3, mu+-c*sqrt(mu), U(0,2000), U(0,1e5), "
@@ -169,11 +185,15 @@ def _nbd_oracle(run, case, mu, var, n, d1, d2):
     return pmf
 
 
-def _nbd_case(run, drv, pending, rng, mu, var, n, tag):
+def _nbd_case(run, drv, pending, rng, mu, var, n, tag, vtype="float"):
     from csep.core import binomial_evaluations as be
-    case = dict(kind="nbd", mu=repr(float(mu)), var=repr(float(var)), n=int(n), tag=tag)
+    var = float(_as_var(var, vtype, mu))
+    case = dict(kind="nbd", mu=repr(float(mu)), var=repr(float(var)), n=int(n), tag=tag, vtype=vtype)
     try:
-        d1, d2 = be._nbd_number_test_ndarray(float(mu), int(n), float(var))
+        if vtype == "float":
+            d1, d2 = be._nbd_number_test_ndarray(float(mu), int(n), float(var))
+        else:
+            d1, d2 = be._nbd_number_test_ndarray(numpy.float64(mu), numpy.int64(n), _as_var(var, vtype, mu))
         d1, d2 = float(d1), float(d2)
     except Exception as e:
         run.oracle_failure(case, f"exception {type(e).__name__}: {e}")
@@ -434,9 +454,14 @@ def _catalog_case(run, drv, pending, rng, tier, sizes=None, nobs=None, extras=No
     try:
         fc = CatalogForecast(catalogs=[cat_of(k, e) for k, e in zip(case["sizes"], extras)], region=reg[0], name="gen")
         obs = cat_of(case["nobs"], obs_extras)
-        res = ce.number_test(fc, obs, verbose=False)
+        # verbose on / off / left at its default (True): the progress output must not change the result
+        mode = (sum(case["sizes"]) + case["nobs"]) % 3
+        kw = [dict(verbose=False), dict(verbose=True), dict()][mode]
+        with contextlib.redirect_stdout(io.StringIO()):
+            res = ce.number_test(fc, obs, **kw)
         d1, d2 = res.quantile
         res2 = ce.number_test(fc, obs, verbose=False)   # a second pass over the same forecast
+        run.count("catalog:verbose=" + ["off", "on", "default"][mode])
     except Exception as e:
         run.oracle_failure(case, f"exception {type(e).__name__}: {e}")
         return
@@ -597,6 +622,196 @@ def _catalog_seq_case(run, drv, pending, case):
     run.count(f"seq-pre:{seq['pre']}")
 
 
+
+# ----------------------------------------------------------------------------- public functions: scale histories, layouts
+LAYOUTS = ["C", "F", "strided", "int64", "neg-stride"]
+HIST_POOL = [0.5, 2.0, 1, 1.0, 1 / 365.25, 7 / 365, 3, 0.1, 10.0]
+
+
+def _gen_hist(rng):
+    """one forecast OBJECT, a history of 0..4 `scale` calls (the factor REPLACES the previous one; 1 recovers the stored
+    rates), an N-test after every step on one catalog object. Rates in C / Fortran order, a strided or reversed view, or
+    integer rates."""
+    dims = [rng.randint(1, 4), rng.randint(1, 3), rng.randint(1, 3)]
+    layout = rng.choice(LAYOUTS)
+    total = min(max(_gen_mu(rng), 1e-4), 2e4)
+    hist = []
+    for _ in range(rng.choice([0, 1, 2, 2, 3, 4])):
+        v = rng.choice(HIST_POOL) if rng.random() < 0.6 else 10 ** rng.uniform(-3, 3)
+        hist.append(v if isinstance(v, int) else repr(float(v)))
+    mu_guess = total
+    n = _gen_n(rng, mu_guess) if rng.random() < 0.7 else rng.randint(0, 300)
+    n = min(n, 30000)
+    extras = _gen_extras(rng, n)
+    nbd = rng.random() < 0.4
+    return dict(kind="public-hist-nbd" if nbd else "public-hist-pois", dims=dims, layout=layout, wseed=rng.randrange(2 ** 32),
+                total=repr(total), hist=hist, n_in=n, extras=extras, cat_seed=rng.randrange(2 ** 32),
+                disp=[repr(10 ** rng.uniform(-2, 3)) for _ in range(len(hist) + 1)], chain=rng.random() < 0.5,
+                vtype=rng.choice(["float", "float", "int", "np", "0d"]),
+                # the observed catalog is filtered IN PLACE between two tests (its event count changes), at this step
+                obs_filter=[rng.randint(0, 2), rng.choice([4.5, 4.25, 4.0, 3.7])] if rng.random() < 0.35 else None,
+                # an observed catalog without events, built without a data array
+                empty=rng.choice(["noarg", "list", "none"]) if rng.random() < 0.06 else None, tag="public-hist")
+
+
+def _hist_forecast(case, reg):
+    from csep.core.forecasts import GriddedForecast
+    region, mags, nx, ny, nm = reg
+    g = numpy.random.default_rng(case["wseed"])
+    shape = (nx * ny, nm)
+    total = float(case["total"])
+    layout = case["layout"]
+    if layout == "int64":
+        data = g.integers(0, 6, size=shape).astype(numpy.int64)
+        if data.sum() == 0:
+            data[0, 0] = 1
+    else:
+        w = g.uniform(0.01, 1.0, size=shape)
+        base = w / w.sum() * total
+        if layout == "C":
+            data = numpy.ascontiguousarray(base)
+        elif layout == "F":
+            data = numpy.asfortranarray(base)
+        elif layout == "strided":
+            big = numpy.zeros((shape[0] * 2, shape[1] * 3))
+            big[::2, ::3] = base
+            data = big[::2, ::3]
+        else:
+            data = numpy.ascontiguousarray(base[::-1, ::-1])[::-1, ::-1]
+    f = GriddedForecast(start_time=datetime.datetime(2020, 1, 1), end_time=datetime.datetime(2021, 1, 1),
+                        data=data, region=region, magnitudes=mags, name="gen")
+    return f, data
+
+
+def _as_var(var, vtype, mu=None):
+    """the variance argument as a Python float / int / numpy scalar / 0-d array (an int only if it stays above the mean)"""
+    if vtype == "int":
+        return int(var) if (int(var) >= 2 and (mu is None or int(var) > 1.001 * mu)) else float(var)
+    if vtype == "np":
+        return numpy.float64(var)
+    if vtype == "0d":
+        return numpy.array(var)
+    return float(var)
+
+
+def _hist_case(run, drv, pending, case):
+    from csep.core import poisson_evaluations as pe, binomial_evaluations as be
+    reg = _region(*case["dims"])
+    f, data = _hist_forecast(case, reg)
+    flat = [float(v) for v in data.ravel().tolist()]          # the stored rates, row-major
+    base_total = math.fsum(flat)
+    extras = case.get("extras")
+    n = case["n_in"] + (sum(extras) if extras else 0)
+    cat = _catalog(case["n_in"], reg, case["cat_seed"], extras)
+    cat_mags = numpy.array(cat.get_magnitudes(), dtype=float)      # bookkeeping of the harness, taken before any test
+    if case.get("empty"):
+        from csep.core.catalogs import CSEPCatalog
+        cat = {"noarg": lambda: CSEPCatalog(), "list": lambda: CSEPCatalog(data=[]),
+               "none": lambda: CSEPCatalog(data=None, region=reg[0])}[case["empty"]]()
+        n, cat_mags = 0, numpy.zeros(0)
+        run.count("hist:empty-catalog-without-array")
+    nbd = case["kind"].endswith("nbd")
+    hist = [v if isinstance(v, int) else float(v) for v in case["hist"]]
+    snapshot = data.copy()
+    # what happens between two tests: one scale call, or two chained ones (f.scale(a).scale(b))
+    if case["chain"] and len(hist) >= 2:
+        actions = [hist[:2]] + [[v] for v in hist[2:]]
+    else:
+        actions = [[v] for v in hist]
+    applied = []
+    for step in range(len(actions) + 1):
+        if step > 0:
+            r = f
+            for v in actions[step - 1]:
+                r = r.scale(v)
+                applied.append(v)
+            if r is not f:
+                run.oracle_failure(case, "scale() does not return the forecast object")
+        of = case.get("obs_filter")
+        if of and step == min(of[0], len(actions)) and step > 0 and n > 0:
+            cat.filter(f"magnitude >= {float(of[1])!r}")
+            n = int(numpy.count_nonzero(cat_mags >= float(of[1])))
+            cat_mags = cat_mags[cat_mags >= float(of[1])]
+            run.count("hist:observed-catalog-filtered-between-tests")
+        factor = float(applied[-1]) if applied else 1.0
+        mu_ref = base_total * factor
+        if not (1e-6 <= mu_ref <= 1e5):
+            continue
+        applied = list(applied)
+        c = dict(case, step=step, mu=repr(mu_ref), n=n)
+        try:
+            mu = float(f.event_count)
+            if nbd:
+                var = mu_ref * (1.0 + float(case["disp"][step]))
+                c["var"] = repr(float(_as_var(var, case["vtype"], mu_ref)))
+                var = float(c["var"])
+                res = be.negative_binomial_number_test(f, cat, _as_var(var, case["vtype"], mu_ref))
+            else:
+                var = None
+                res = pe.number_test(f, cat)
+            d1, d2 = float(res.quantile[0]), float(res.quantile[1])
+        except Exception as e:
+            run.oracle_failure(c, f"exception {type(e).__name__}: {e}")
+            return
+        if not _close(mu, mu_ref, 1e-12):
+            run.oracle_failure(c, f"after the scale history {applied!r} the forecast total is {mu!r}; the stored rates sum to "
+                                  f"{base_total!r}, times the last factor = {mu_ref!r}")
+        if res.observed_statistic != n or cat.event_count != n:
+            run.oracle_failure(c, f"observed statistic {res.observed_statistic!r} is not the number of events {n}")
+        if nbd:
+            pmf = _nbd_oracle(run, c, mu_ref, var, n, d1, d2)
+            i = drv.ask(f"c07_pubn {','.join(bits(v) for v in flat)} {','.join(bits(v) for v in applied) or '-'} {n} {bits(var)}")
+            pending.append(("nbd", c, i, None, d1, d2, n))
+        else:
+            _, pmf = _pois_oracle(run, c, mu_ref, n, d1, d2)
+            i = drv.ask(f"c07_pub {','.join(bits(v) for v in flat)} {','.join(bits(v) for v in applied) or '-'} {n}")
+            pending.append(("pois", c, i, None, d1, d2, n))
+        run.case(c, (c["kind"], mu_ref, var, n, step, case["layout"]) if (n >= 1 and pmf > 1e-12) else None)
+        run.count(f"hist:{case['layout']}:step{min(step, 3)}" + (":nbd" if nbd else ""))
+    if not numpy.array_equal(snapshot, data):
+        run.oracle_failure(case, "the number test / scale changed the stored rates of the forecast")
+
+
+# ----------------------------------------------------------------------------- float64 arguments of the floor
+def _shift_cases(run, drv, pending, rng, count):
+    """Soft64 model of (floor(n - 1e-6), floor(n + 1e-6)) against numpy's float64, also beyond the proved range"""
+    ns = [0, 1, 2, 3, 99999, 100000, 100001, 2 ** 33 - 1, 2 ** 33, 2 ** 34, 2 ** 35, 2 ** 35 - 1, 2 ** 40, 2 ** 52]
+    for _ in range(count):
+        k = rng.random()
+        ns.append(rng.randint(0, N_MAX) if k < 0.5 else (rng.randint(0, 2 ** 33 - 1) if k < 0.8 else rng.randint(2 ** 33, 2 ** 53)))
+    for n in ns:
+        lo = math.floor(float(numpy.float64(n) - EPS))
+        hi = math.floor(float(numpy.float64(n) + EPS))
+        case = dict(kind="shift", n=n, tag="shift")
+        if n < 2 ** 33 and (lo, hi) != (n - 1, n):
+            run.oracle_failure(case, f"float64: floor(n - 1e-6), floor(n + 1e-6) = {lo}, {hi} for n = {n}")
+        run.case(case, ("shift", n))
+        run.count("shift:" + ("proved-range" if n < 2 ** 33 else "beyond"))
+        pending.append(("shift", case, drv.ask(f"c07_shift {n}"), None, lo, hi, n))
+
+
+# ----------------------------------------------------------------------------- consecutive counts
+def _count_chain(run, drv, pending, rng, law):
+    """fixed law, counts n, n+1, ..: delta1(n+1) = 1 - delta2(n); delta1 non-increasing, delta2 non-decreasing in n"""
+    mu = _gen_mu(rng)
+    vtype = rng.choice(["float", "int", "np", "0d"])
+    var = float(_as_var(_gen_var(rng, mu), vtype, mu)) if law == "nbd" else None
+    n0 = max(0, _gen_n(rng, mu) - 2)
+    vals = []
+    for n in range(n0, min(n0 + rng.randint(2, 5), N_MAX + 1)):
+        v = _pois_case(run, drv, pending, rng, mu, n, "chain") if law == "pois" else \
+            _nbd_case(run, drv, pending, rng, mu, var, n, "chain", vtype=vtype)
+        if v is None:
+            return
+        vals.append((n, v))
+    for (n, a), (_, b) in zip(vals, vals[1:]):
+        case = dict(kind="chain-" + law, mu=repr(mu), var=repr(var) if var else None, n=n, tag="chain")
+        if abs(b[0] - (1.0 - a[1])) > 1e-12:
+            run.oracle_failure(case, f"delta1(n+1)={b[0]!r} is not 1 - delta2(n) = {1.0 - a[1]!r}")
+        if b[0] > a[0] + 1e-15 or a[1] > b[1] + 1e-15:
+            run.oracle_failure(case, f"not monotone in the count: delta(n)={a!r} delta(n+1)={b!r}")
+    run.count("count-chain:" + law)
+
 # ----------------------------------------------------------------------------- monotonicity
 def _mono_grid(run, drv, pending, rng, law):
     """fixed n, sorted grid of means: delta1 non-decreasing, delta2 non-increasing (Poisson; NBD along fixed var/mean)"""
@@ -639,6 +854,15 @@ def _flush(run, drv, pending):
             if not ok:
                 run.mismatch(case, [d1, d2], out[i])
             continue
+        if kind == "shift":
+            toks = out[i].split()
+            ok = len(toks) == 4 and toks[0] == str(d1) and toks[1] == str(d2) and toks[3] == bits(EPS)
+            if ok:
+                num, den = toks[2].split("/")
+                ok = Fraction(int(num), int(den)) == Fraction(EPS)
+            if not ok:
+                run.mismatch(case, [d1, d2, str(Fraction(EPS)), bits(EPS)], out[i])
+            continue
         tol = _model_tol(n)
         for idx in (i, j):
             if idx is None:
@@ -661,6 +885,9 @@ def _flush(run, drv, pending):
                 worst[kind] = max(worst[kind], e1, e2)
             if not (e1 <= tol and e2 <= tol2):
                 run.mismatch(case, [d1, d2], [m1, m2])
+            if len(toks) == 3 and not _close(unbits(toks[2]), float(case["mu"]), 1e-12):
+                # the model's own total (sum of stored rates x last factor) against the reference total
+                run.mismatch(case, case["mu"], repr(unbits(toks[2])))
             if kind == "nbd" and len(toks) == 4:
                 mu, var = float(case["mu"]), float(case["var"])
                 p = float(Fraction(mu) / Fraction(var))
@@ -707,6 +934,13 @@ def run(run, rng, tier):
     _flush(run, drv, pending)
     for _ in range(150 if quick else 2000):
         _public_case(run, drv, pending, _gen_public(rng))
+    for _ in range(120 if quick else 2000):
+        _hist_case(run, drv, pending, _gen_hist(rng))
+    _shift_cases(run, drv, pending, rng, 150 if quick else 5000)
+    for _ in range(40 if quick else 600):
+        _count_chain(run, drv, pending, rng, "pois")
+        _count_chain(run, drv, pending, rng, "nbd")
+    _flush(run, drv, pending)
     for _ in range(120 if quick else 1500):
         _catalog_case(run, drv, pending, rng, tier)
     for _ in range(150 if quick else 2500):
@@ -721,12 +955,23 @@ def replay(run, payload):
     k = case.get("kind", "")
     if k.startswith("public-") and "fspec" in case:
         _public_case(run, drv, pending, {kk: v for kk, v in case.items() if kk not in ("mu", "n")})
+    elif k.startswith("public-hist"):
+        _hist_case(run, drv, pending, {kk: v for kk, v in case.items() if kk not in ("mu", "n", "step", "var")})
     elif k == "catalog-seq":
         _catalog_seq_case(run, drv, pending, case)
+    elif k == "shift":
+        _shift_cases(run, drv, pending, rng, 0)
+    elif k.startswith("chain-"):
+        for n in (int(case["n"]), int(case["n"]) + 1):
+            if k == "chain-pois":
+                _pois_case(run, drv, pending, rng, float(case["mu"]), n, "replay")
+            else:
+                _nbd_case(run, drv, pending, rng, float(case["mu"]), float(case["var"]), n, "replay")
     elif k in ("pois", "public-pois"):
         _pois_case(run, drv, pending, rng, float(case["mu"]), int(case["n"]), "replay")
     elif k in ("nbd", "public-nbd"):
-        _nbd_case(run, drv, pending, rng, float(case["mu"]), float(case["var"]), int(case["n"]), "replay")
+        _nbd_case(run, drv, pending, rng, float(case["mu"]), float(case["var"]), int(case["n"]), "replay",
+                  vtype=case.get("vtype", "float"))
     elif k == "catalog":
         _catalog_case(run, drv, pending, rng, "quick", case["sizes"], case["nobs"], case.get("extras"),
                       case.get("obs_extras"))
